@@ -391,6 +391,42 @@ func RunEnumWorker(p Params) *Summary {
 			}
 		}
 	}
+	// (i) alias flow: every ordered pair of copy/move operations over six nested locations of a
+	// small document - a node that ends up linked twice, below itself or moved away from under a
+	// copy of it must still serialise, in both packages
+	{
+		locs := []string{"/a", "/a/x", "/b", "/b/c", "/a/y", "/b/c/d"}
+		var one []string
+		for _, op := range []string{"copy", "move"} {
+			for _, from := range locs {
+				for _, to := range locs {
+					if from != to {
+						one = append(one, `{"op":"`+op+`","from":"`+from+`","path":"`+to+`"}`)
+					}
+				}
+			}
+		}
+		for _, target := range targets {
+			for _, doc := range []string{`{"a":{"x":{"k":1}},"b":{"c":{}}}`, `{"a":{"x":[1]},"b":{}}`} {
+				var batch []string
+				flush := func() {
+					if len(batch) > 0 && mine() {
+						exec(patchListScenario(seed, target, doc, batch, item), "alias-flow-pair")
+					}
+					batch = nil
+				}
+				for _, a := range one {
+					for _, b := range one {
+						batch = append(batch, "["+a+","+b+"]")
+						if len(batch) == 32 {
+							flush()
+						}
+					}
+				}
+				flush()
+			}
+		}
+	}
 	// (g) extreme and oddly spelled array indices (never with EnsurePathExistsOnAdd, whose padding is
 	// outside the stated domain above 10^4), and strings that end in runs of malformed UTF-8
 	{
